@@ -11,6 +11,7 @@ import (
 // c06Extra: rules added after the fourth independent seeding round.
 func c06Extra(r *core.Run) {
 	p := r.P
+	defer c06Round9(r)
 	defer c06Round8(r)
 	r.Check("D3/K2/expiry-defaults-independent", "the cache options' two expiries are defaulted independently: the function that fills Options.Expire / Options.NotFoundExpire with their defaults returns, on every path, with each of them either known positive or freshly defaulted (a placeholder stored with expiry 0 never expires)", func(o *core.O) {
 		n := 0
